@@ -394,6 +394,9 @@ def shape_program(item, ob):
     ob.absorb_engine(E)
 
 def run_shape(item, ob):
+    if item[0] == 'pair':
+        from props import equiv
+        equiv.MIR = MIR; return equiv.run_item(item, ob)
     fam, payload = item
     {'program': shape_program}[fam](payload, ob)
 
@@ -402,6 +405,8 @@ def main(tier, seed, t0):
     MIR, th = load_mir('on')
     fam = family(); evalh.parse_programs([src(p) for p in fam])
     items = [('program', (i,)) for i in range(len(fam))]
+    from props import equiv
+    equiv.MIR = MIR; equiv.preparse('C05'); items += equiv.items_for('C05')          # statement-level equivalences (props/equiv.py family C05)
     merged, per = pmap(run_shape, items, tier)
     return finish(PROP, tier, seed, merged, t0, th=th,
         kernels=['eval.rs: evaluate (Sequence, If, While, For + evaluate_for, Try, Throw, Lambda, Call, Break/Continue/Return, And/Or/Coalesce, Assign, OpAssign, Chain, List, Ident), eval_lvalue, assign, assign_respecting_type, insert_declare, Closure::run',
